@@ -109,7 +109,9 @@ def gen_table(r):
     mpr = 1 if r.random() < 0.5 else 0
     known = []
     if r.random() < 0.5:
-        pool = UNKNOWN_CRIT + UNKNOWN_ELEC
+        # 9 (OSCORE) is never registered: "application knows the OSCORE option but the library
+        # has no OSCORE context" is a corner of C14's code path, not of this property
+        pool = [n for n in UNKNOWN_CRIT + UNKNOWN_ELEC if n != 9]
         known = r.sample(pool, r.choice([1, 1, 2, 3, 7, 9]))
     nres = r.choice([0, 1, 2, 3, 4, 6])
     segs = r.sample(PATHS, nres)
@@ -120,7 +122,7 @@ def gen_table(r):
         if p in seen:
             continue
         seen.add(p)
-        res.append((p, gen_mask(r), gen_flags(r, 0.6 if mpr else 0.3)))
+        res.append((p, gen_mask(r), gen_flags(r, 0.6 if mpr else 0.3), 1 if r.random() < 0.35 else 0))
     unk = None
     if r.random() < 0.45:
         f = gen_flags(r, 0.5)
@@ -136,7 +138,7 @@ def gen_table(r):
 
 def table_tokens(t):
     k = ",".join(str(x) for x in t["known"]) or "-"
-    res = ",".join("%s/%d/%d" % (hexs(p), m, f) for p, m, f in t["res"]) or "-"
+    res = ",".join("%s/%d/%d/%d" % (hexs(x[0]), x[1], x[2], x[3] if len(x) > 3 else 0) for x in t["res"]) or "-"
     unk = "-" if t["unk"] is None else "%d/%d" % t["unk"]
     prx = "-" if t["prx"] is None else "%d/%d/%s" % (t["prx"][0], t["prx"][1],
                                                      "+".join(hexs(n) for n in t["prx"][2]))
@@ -163,7 +165,12 @@ def gen_hact(r):
         opts.append((27, r.choice([b"", b"\x06", b"\x0e", b"\x01\x06"])))
     if r.random() < 0.08:
         opts.append((60, b"\x10"))
-    opts.sort(key=lambda o: o[0])
+    if r.random() < 0.04:
+        opts.append((6, r.choice([b"\x05", b""])))
+    if r.random() < 0.9:
+        opts.sort(key=lambda o: o[0])
+    else:
+        r.shuffle(opts)              # coap_add_option inserts out-of-order options
     pay = b"" if r.random() < 0.4 else rbytes(r, r.choice([1, 2, 5, 20]))
     o = "+".join("%d=%s" % (n, hexs(v)) for n, v in opts) or "-"
     return "%d/%s/%s" % (code, o, hexs(pay)), code, opts, pay
@@ -198,7 +205,7 @@ def gen_request(r, t):
     x = r.random()
     if t["res"] and x < 0.55:
         # hit a registered resource: find the segments that escape to it
-        cands = [s for s in PATHS if esc_path(s) in [p for p, _, _ in t["res"]]]
+        cands = [s for s in PATHS if esc_path(s) in [x[0] for x in t["res"]]]
         segs = r.choice(cands) if cands else r.choice(PATHS)
         tags.append("hit")
     elif x < 0.70:
@@ -238,8 +245,9 @@ def gen_request(r, t):
     if r.random() < 0.05:
         opts.append((IF_MATCH, rbytes(r, 2)))
         opts.append((IF_MATCH, b""))
-    if r.random() < 0.05:
-        opts.append((OBSERVE, r.choice([b"", b"\x01"])))
+    if r.random() < 0.12:
+        opts.append((OBSERVE, r.choice([b"", b"", b"\x00", b"\x01", b"\x02", b"\x00\x00\x01"])))
+        tags.append("observe")
     if r.random() < 0.04:
         opts.append((SIZE1, b"\x10"))
     px = r.random()
